@@ -119,9 +119,23 @@ def check_nab(b, l):
     return v
 
 
+def check_short(b, l):
+    """more sextets asked for than the bytes hold: there are no such leading bits, nothing may be invented"""
+    v = []
+    for name, fn in (("nabSextets", helping.nabSextets), ("codeB2ToB64", helping.codeB2ToB64)):
+        try:
+            got = fn(b, l)
+        except ValueError:
+            continue
+        v.append(("%s:short-input-answered" % name, "%s(%r,%d) returned %r though %d sextets need %d bytes" % (name, b, l, got, l, -(-l * 3 // 4))))
+    return v
+
+
 def run_case(job, case):
     kind = case[0]
     try:
+        if kind == "short":
+            return check_short(bytes(case[1]), case[2])
         if kind == "int":
             return check_int(case[1], case[2])
         if kind == "code":
@@ -177,6 +191,8 @@ def run_job(job, tier, seed):
                 if -(-l * 3 // 4) == len(b):   # only l that use all bytes of b (shorter ones were cases of the prefix)
                     do(("nab", list(b), l), sample=(b[-1] == 0xA5))
                 l += 1
+            for l2 in (l, l + 1):      # the first two sextet counts that do NOT fit into b
+                do(("short", list(b), l2))
             if len(b) < maxb:
                 stack.extend(b + bytes([x]) for x in range(256))
     elif kind == "nabwide":
